@@ -401,7 +401,7 @@ def qd_readback_is_leading_component(c):
 
 @pred
 def qd_component_marginally_over_half_ulp(c):
-    """qd result accurate, but a component exceeds half an ulp of its predecessor by less than 2^-10 of it"""
+    """qd result accurate, but a component exceeds half an ulp of its predecessor while staying below one ulp of it"""
     from fractions import Fraction
     def d(x):
         return Fraction(struct.unpack('<d', struct.pack('<Q', x))[0])
@@ -427,7 +427,7 @@ def qd_component_marginally_over_half_ulp(c):
             continue
         ulp = Fraction(2) ** (math.frexp(float(abs(p)))[1] - 1 - 52)
         if abs(q) * 2 > ulp:
-            if abs(q) * 2 > ulp * (1 + Fraction(1, 1 << 10)):
+            if abs(q) >= ulp:
                 return False
             over = True
     return over
